@@ -301,7 +301,31 @@ def cmp_points(c, r, out):
 
 
 # ============================================================================ stream: disp(grid) / flow(grid)
+def dense_sweep(rng: random.Random, views: bool):
+    """every dense vector field configuration once: class x stride x resize x align_corners x output grid kind
+    (the random generator reaches a particular combination such as stride>1 / resize=False / align_corners=False /
+    own grid only with probability ~1e-3 per case)"""
+    for cls in ("DisplacementFieldTransform", "StationaryVelocityFieldTransform"):
+        for stride in (None, 2, 3):
+            for resize in (True, False):
+                for ac in (True, False):
+                    for where in ("own", "foreign", "same_other_ac", "resized"):
+                        d = 2
+                        gs = tgrid_spec(rng, d, ac=ac, max_size=7, min_size=5)
+                        spec = nonrigid_spec(rng, cls, d, groups=1)
+                        spec["stride"], spec["resize"] = stride, resize
+                        c = {"spec": spec, "grid": gs, "where": where, "index": 0, "api": "disp"}
+                        if where == "foreign":
+                            c["other"] = foreign_grid_spec(rng, gs, d, max_size=5)
+                        elif where == "resized":
+                            c["newsize"] = [rng.randint(2, 6) for _ in range(d)]
+                        if views:
+                            c["other2"] = foreign_grid_spec(rng, gs, d, max_size=5)
+                        yield c
+
+
 def gen_disp(rng: random.Random, tier: str):
+    yield from dense_sweep(rng, False)
     for _ in range(_n(tier, 120, 2500)):
         d = rng.choice([2, 2, 3])
         ac = rng.random() < 0.6
@@ -631,6 +655,7 @@ def check_identity(c):
 
 # ---------------------------------------------------------------- views agree (disp / matrix / points / flow)
 def gen_views(rng: random.Random, tier: str):
+    yield from dense_sweep(rng, True)
     for _ in range(_n(tier, 120, 2000, 300)):
         d = rng.choice([2, 2, 3])
         ac = rng.random() < 0.6
